@@ -19,7 +19,7 @@ EXPLANATION = (
     'discarded.'
 )
 ASSUMPTIONS = ["Task.cancel() delivers CancelledError at the task's current await", "asyncio.current_task() identifies the caller so close() does not cancel itself"]
-FLOORS = {"C15.R1": 3, "C15.R2": 4, "C15.R3": 14, "C15.R4": 1, "C15.R5": 9, "C15.R6": 1}
+FLOORS = {"C15.R1": 3, "C15.R2": 4, "C15.R3": 14, "C15.R4": 1, "C15.R5": 9, "C15.R6": 1, "C15.R7": 1, "C15.R8": 1}
 
 
 def run(ctx):
@@ -38,6 +38,11 @@ def run(ctx):
             if modname == AT5_API:
                 c09.r3(c, modname, cases, mr)
 
+    from . import c07, c14
+
+    reuse(ctx, "C15.R7", [c07.r2], "close() cannot fail half-way: _disconnect closes the writer, never raises and clears the connection state (C07.R2)")
+    reuse(ctx, "C15.R8", [c14.r3], "after a later init() the AirTouch 4 group poll runs again: reaching CONNECTED always creates the task (C14.R3)",
+          keep=lambda o: "poll-task" in o.construct or "task" in o.construct or o.verdict != "HOLDS")
     reuse(ctx, "C15.R6", [state_guards], "a frame that is still being delivered while shutdown() runs cannot mark the client initialised again: every case of _message_received that changes state, sets the initialised event or starts the heartbeat is guarded by the one handshake state it belongs to, never by `!= CONNECTED` (C09.R2/R3)",
           keep=lambda o: ":state" in o.construct or o.verdict != "HOLDS")
 
